@@ -520,11 +520,23 @@ def r8_membership(chk, cls):
     chk.require(len(arms) == 1, "get_atom: `case Atom()` not found")
     c = arms[0][1]
     p = ga.params()[1]
-    rets = [(g, r) for g in c.body if isinstance(g, ast.If) for r in g.body if isinstance(r, ast.Return)]
-    direct = [r for r in c.body if isinstance(r, ast.Return)]
-    ok = len(rets) == 1 and not direct and norm(rets[0][0].test) in (f"{p} in self.atoms", f"{p} in self._atoms") and norm(rets[0][1].value) == p
+    # every `return <the atom>` of the arm runs under the condition `<the atom> in self.atoms` - as an if test, or as the negation of a
+    # guard clause that raises (path conditions); any weaker condition (an `or` with the parent pointer) is not that conjunct
+    from ..canon import path_conditions
+
+    import types as _types
+    holder = ga.node if not isinstance(c, _types.SimpleNamespace) else ast.Module(body=list(c.body), type_ignores=[])
+    rets_ = [r for b in c.body for r in ast.walk(b) if isinstance(r, ast.Return) and r.value is not None and norm(r.value) == p]
+    member = (f"{p} in self.atoms", f"{p} in self._atoms")
+    bad = None
+    for r in rets_:
+        conds = [norm(x) for x in path_conditions(holder, r)]
+        if not any(x in member for x in conds):
+            bad = (r, [x for x in conds if p in x and "isinstance" not in x])
+            break
+    ok = bool(rets_) and bad is None
     chk.decide(ok, "C05.R8", f"{ga.key}:atom-must-be-in-the-atom-list", ga.where(c.pattern), f"returns the atom only if `{p} in self.atoms`",
-               f"get_atom accepts an Atom under `{norm(rets[0][0].test) if rets else 'no test'}`: an atom that was deleted (its parent pointer is not cleared) is accepted again, "
+               f"get_atom accepts an Atom under `{(' and '.join(bad[1]) or 'no test') if bad else 'no test'}`: an atom that was deleted (its parent pointer is not cleared) is accepted again, "
                "connect() then re-adopts it through append_atom without a coordinate row or a charge")
 
 
